@@ -509,7 +509,7 @@ fn fp_az(i: u64) -> f32 { let k = i / 54 % 29; if k < 25 { k as f32 * 15.0 - 180
 /// Camera::viewport accepts every range form; whatever the spelling, the result is the request intersected with the frame.
 fn check_camera_range_forms(i: u64, r: &mut Report) {
     r.eval();
-    const NF: u64 = 14;
+    const NF: u64 = 15;
     let dims = [(8u32, 8u32), (16, 9), (5, 7), (640, 480)][(i % 4) as usize];
     let form = i / 4 % NF;
     // builder order: the viewport set after the mode (as the demos do) or before it
@@ -534,6 +534,8 @@ fn check_camera_range_forms(i: u64, r: &mut Report) {
         // literal rectangles, partly unbounded
         11 => (mk!(Rect { left: Some(1u32), top: Some(2), right: Some(7), bottom: None }), "Rect{1,2,7,-}", (1, 2, 7, u32::MAX)),
         12 => (mk!(Rect { left: None, top: Some(3u32), right: Some(3), bottom: Some(6) }), "Rect{-,3,3,6}", (0, 3, 3, 6)),
+        // inclusive ends at u32::MAX: no half-open equivalent, yet a perfectly good request for "everything to the right / below"
+        13 => (mk!((1u32..=u32::MAX, 2u32..=u32::MAX)), "(1..=MAX, 2..=MAX)", (1, 2, u32::MAX, u32::MAX)),
         _ => (mk!((3u32..5, 1u32..4)), "(3..5, 1..4)", (3, 1, 5, 4)),
     };
     let name = &format!("{name}{}", if mode_last { " before mode()" } else { "" });
@@ -678,7 +680,7 @@ fn run_proj(cfg: &Cfg) -> ! {
     rects.extend([(0, 480, 640, 0), (640, 0, 0, 480), (640, 480, 0, 0), (7, 2, 3, 5), (3, 5, 7, 2), (5, 5, 2, 1), (0, 7, 8, 0), (101, 75, 0, 0)]);
     rep.merge(par_range(cfg, rects.len() as u64, |i, r| { let (l, t, rr, b) = rects[i as usize]; check_viewport(l, t, rr, b, r); }));
     rep.merge(par_range(cfg, 144 * 10 * 2, check_camera));
-    rep.merge(par_range(cfg, 4 * 14 * 2, check_camera_range_forms));
+    rep.merge(par_range(cfg, 4 * 15 * 2, check_camera_range_forms));
     rep.merge(par_range(cfg, 42, check_camera_empty_viewport));
     // FirstPerson::default() is FirstPerson::new(): same view transform, also after a translate (nothing resets the heading)
     {
